@@ -23,6 +23,10 @@ class C08(Prop):
     def models(self):
         # L2: transcribed GF(2) elimination (z2rank, z2inv) against its definition on all matrices up to 3x3 (4x4 thorough)
         self.model("MC_Z2", "MC_Z2_t.cfg" if self.tier == "thorough" else "MC_Z2_q.cfg", name="z2_linear_algebra", workers=4, timeout=3000)
+        # L2: the transcribed stabilizer_entropy equals the entropy formula in every reachable tableau (EntropyRefines)
+        self.model("MC_Tableau", "MC_Tableau_n1.cfg", name="tableau_impl_n1", expect_distinct=48)
+        if self.tier == "thorough":
+            self.model("MC_Tableau", "MC_Tableau_n2.cfg", name="tableau_impl_n2", expect_distinct=34560, timeout=3000)
         for k_, m_ in ((1, 1), (1, 2), (2, 1), (2, 2)):
             self.model("MC_Pad", "MC_Pad_k%dm%d.cfg" % (k_, m_), name="pad_lemma_k%dm%d" % (k_, m_), workers=4)
         for n in (1, 2):
